@@ -31,8 +31,19 @@ def config(tier):
 def plan(tier, seed):
   n = 84 if tier == 'quick' else 1512
   per = 6 if tier == 'quick' else 27
-  return [{'kind': 'rt', 'seed': seed, 'first': i, 'count': per,
+  jobs = [{'kind': 'rt', 'seed': seed, 'first': i, 'count': per,
            'steps_every': 3} for i in range(0, n, per)]
+  # ordered forest shapes with 1..6 links: a seed-rotated third in the quick
+  # tier, all 196 in the thorough tier (claimed stacks only)
+  from vf import gen
+  shapes = [p for m in range(1, 7) for p in gen.all_forests(m)]
+  if tier == 'quick':
+    shapes = [p for i, p in enumerate(shapes) if (i + seed) % 3 == 0]
+  for i in range(0, len(shapes), 10):
+    jobs.append({'kind': 'rt', 'seed': seed, 'first': 500000 + i,
+                 'count': len(shapes[i:i + 10]), 'shapes': shapes[i:i + 10],
+                 'steps_every': 10 ** 9})
+  return jobs
 
 
 def floors(tier):
@@ -40,7 +51,8 @@ def floors(tier):
   f = {'ev:q_round_trip_claimed': 500 * k, 'ev:qd_round_trip_claimed': 200 * k,
        'ev:reported_q_is_inverse_image:spring': 60 * k,
        'ev:reported_q_is_inverse_image:positional': 60 * k,
-       'unclaimed_compared': 100 * k, 'near_zero_states': 100 * k}
+       'unclaimed_compared': 100 * k, 'near_zero_states': 100 * k,
+       'forest_shapes_enumerated': 60 if tier == 'quick' else 196}
   for s in CLAIMED:
     f['claimed_sig:' + s] = 5 * (1 if tier == 'quick' else 10)
   return f
@@ -55,7 +67,12 @@ def run(job, mon):
   for c in range(job['first'], job['first'] + job['count']):
     rng = np.random.default_rng([job['seed'], c, 8])
     mode = c % 3
-    if mode == 0:
+    if 'shapes' in job:
+      spec = gen.gen_model(rng, parents=job['shapes'][c - job['first']],
+                           ortho=True, stack_kinds='invertible',
+                           actuators=False)
+      mon.count('forest_shapes_enumerated')
+    elif mode == 0:
       spec = gen.gen_model(rng, ortho=True, stack_kinds='invertible')
     elif mode == 1:
       # force every claimed signature to appear: pick per-body stacks
